@@ -222,7 +222,9 @@ def _case(draw, pid, tier):
     thorough = tier == "thorough"
     labelled = draw(st.integers(0, 2)) != 0
     polytomy = labelled and draw(st.integers(0, 5)) == 0
-    spec = draw(e1_solver._input(labelled, 5 if thorough else 4, 4, 3, polytomy, True))
+    # five leaves and more: pre-order and level-order numbering of unnamed ancestors differ
+    max_obj = (5 if thorough else 4) if polytomy else (6 if not labelled else 5)
+    spec = draw(e1_solver._input(labelled, max_obj, 4 if polytomy else 5, 3, polytomy, True))
     spec["named"] = draw(st.sampled_from([0, 0, 1, 2, 2, 3]))
     spec["root_order"] = None
     binary = ref.is_binary(spec["object"]) and ref.is_binary(spec["species"])
